@@ -27,6 +27,13 @@ package cache
 // clauses and wfHeap instantiate each other without end in the big handler queries).
 //@ fn isIdx(j int) bool
 //@ smt (assert (forall ((j Int)) (! (isIdx j) :pattern ((isIdx j)))))
+// idxWf: the converse of slotOK -- every idx (in use or free) points at a slot, and that slot carries it. (wfHeap says it
+// for the slots; for the idxs it follows by counting, which SMT cannot do, so it is carried along as an invariant of its
+// own.) With "free idxs and free slots are not touched" it gives the converse of keptIdx: an operation makes no idx live
+// that was not live before (nowLiveWasLive) -- the clients need it to know that every slot they find afterwards is one
+// they knew before.
+//@ macro idxWf(hh) = forall(j, 0, hh.maxidx, isIdx(j) ==> 0 <= hh.indices[j + 0] && hh.indices[j + 0] < hh.maxidx && hh.entries[hh.indices[j + 0]].idx == j)
+//@ macro nowLiveWasLive(hh, except) = forall(j, 0, hh.maxidx, isIdx(j) && j != except && live(hh, j + 0) ==> old(live(hh, j + 0)))
 
 // ---- heap order (by expiry) -----------------------------------------------------------------------------
 // heapOrd: no entry expires before its parent (positions 2p+1 and 2p+2 are the children of p: container/heap's
@@ -144,11 +151,13 @@ package cache
 //@   requires heap-wf: wfHeap(h)
 //@   requires sum-inv: sumInv(h)
 //@   requires heap-ordered: ordInv(h)
+//@   requires every-idx-has-its-slot: idxWf(h)
 //@   modifies h.maxidx, h.indices, h.entries, elems(h.entries), elems(h.indices), hpSum, hpPre
 //   (lemmas at the call of heap.Fix, i.e. after the push: the idx chosen was free and is now the one of the last entry)
 //   (at a call of heap.Fix the name h is Fix's own parameter, the interface value: HP(hx) is the *indexedHeap in it)
 //@   atcall @heap.Fix: chosen-idx-was-free: 0 <= idx && !old(live(h, idx)) && HP(hx) == old(h)
 //@   atcall @heap.Fix: chosen-idx-is-last-entry: holds(HP(hx), idx) && HP(hx).indices[idx] == len(HP(hx).entries) - 1 && len(HP(hx).entries) == old(len(h.entries)) + 1
+//@   atcall @heap.Fix: every-idx-has-its-slot-after-the-push: idxWf(HP(hx)) && isIdx(idx)
 //@   atcall @heap.Fix: pushed-entry-under-idx: HP(hx).entries[HP(hx).indices[idx]].key == key && HP(hx).entries[HP(hx).indices[idx]].exp == exp && HP(hx).entries[HP(hx).indices[idx]].bytes == bytes
 //@   ensures heap-wf: wfHeap(h)
 //@   ensures grows-by-one: len(h.entries) == old(len(h.entries)) + 1
@@ -156,6 +165,8 @@ package cache
 //@   ensures entry-under-idx: h.entries[h.indices[result]].key == key && h.entries[h.indices[result]].exp == exp && h.entries[h.indices[result]].bytes == bytes
 //@   ensures live-entries-kept: forall(j, 0, old(h.maxidx), isIdx(j) ==> keptIdx(h, j + 0))
 //@   ensures max-idx-grows-at-most-one: old(h.maxidx) <= h.maxidx && h.maxidx <= old(h.maxidx) + 1
+//@   ensures every-idx-has-its-slot: idxWf(h)
+//@   ensures only-the-returned-idx-is-new: nowLiveWasLive(h, result)
 //@   ensures sum-inv: sumInv(h)
 //@   ensures sum-follows: hpSum == old(hpSum) + bytes
 //@   ensures heap-ordered: ordInv(h)
@@ -166,6 +177,7 @@ package cache
 //@   requires position-in-range: 0 <= realIdx && realIdx < len(h.entries)
 //@   requires sum-inv: sumInv(h)
 //@   requires heap-ordered: ordInv(h)
+//@   requires every-idx-has-its-slot: idxWf(h)
 //@   modifies h.entries, elems(h.entries), elems(h.indices), hpSum, hpPre
 //@   ensures heap-wf: wfHeap(h)
 //@   ensures shrinks-by-one: len(h.entries) == old(len(h.entries)) - 1 && h.maxidx == old(h.maxidx)
@@ -174,6 +186,8 @@ package cache
 //@   ensures returns-removed-entry: result0 == old(h.entries[realIdx].key) && result1 == old(h.entries[realIdx].bytes)
 //@   ensures sum-inv: sumInv(h)
 //@   ensures sum-follows: hpSum == old(hpSum) - result1 && result1 <= old(hpSum) && (len(h.entries) == 0 ==> hpSum == 0)
+//@   ensures every-idx-has-its-slot: idxWf(h)
+//@   ensures no-idx-becomes-live: nowLiveWasLive(h, -1)
 //@   ensures heap-ordered: ordInv(h)
 
 // remove(idx): idx must be in use; exactly the entry that was handed out under idx goes.
@@ -182,6 +196,7 @@ package cache
 //@   requires idx-in-use: holds(h, idx)
 //@   requires sum-inv: sumInv(h)
 //@   requires heap-ordered: ordInv(h)
+//@   requires every-idx-has-its-slot: idxWf(h)
 //@   modifies h.entries, elems(h.entries), elems(h.indices), hpSum, hpPre
 //@   ensures heap-wf: wfHeap(h)
 //@   ensures shrinks-by-one: len(h.entries) == old(len(h.entries)) - 1 && h.maxidx == old(h.maxidx)
@@ -189,6 +204,8 @@ package cache
 //@   ensures other-live-entries-kept: forall(j, 0, h.maxidx, isIdx(j) && j != idx ==> keptIdx(h, j + 0))
 //@   ensures sum-inv: sumInv(h)
 //@   ensures sum-follows: hpSum == old(hpSum) - result1 && result1 <= old(hpSum) && (len(h.entries) == 0 ==> hpSum == 0)
+//@   ensures every-idx-has-its-slot: idxWf(h)
+//@   ensures no-idx-becomes-live: nowLiveWasLive(h, -1)
 //@   ensures heap-ordered: ordInv(h)
 
 // removeFirst: the root goes (the entry with the nearest expiry, by the heap order kept by Fix/Remove).
@@ -197,15 +214,45 @@ package cache
 //@   requires non-empty: len(h.entries) > 0
 //@   requires sum-inv: sumInv(h)
 //@   requires heap-ordered: ordInv(h)
+//@   requires every-idx-has-its-slot: idxWf(h)
 //@   modifies h.entries, elems(h.entries), elems(h.indices), hpSum, hpPre
 //@   ensures heap-wf: wfHeap(h)
 //@   ensures shrinks-by-one: len(h.entries) == old(len(h.entries)) - 1 && h.maxidx == old(h.maxidx)
 //@   ensures removes-root: !live(h, old(h.entries[0].idx)) && result0 == old(h.entries[0].key) && result1 == old(h.entries[0].bytes)
+//   (isIdx is true of every number: naming the root's idx here gives the clients' "for all idx" invariants their instance)
+//@   ensures root-was-in-use: isIdx(old(h.entries[0].idx)) && old(holds(h, h.entries[0].idx)) && old(h.indices[h.entries[0].idx]) == 0
 //@   ensures root-expired-first: forall(k, 0, old(len(h.entries)), isPos(k) ==> old(h.entries[0].exp) <= old(h.entries[k + 0].exp))
 //@   ensures other-live-entries-kept: forall(j, 0, h.maxidx, isIdx(j) && j != old(h.entries[0].idx) ==> keptIdx(h, j + 0))
 //@   ensures sum-inv: sumInv(h)
 //@   ensures sum-follows: hpSum == old(hpSum) - result1 && result1 <= old(hpSum) && (len(h.entries) == 0 ==> hpSum == 0)
+//@   ensures every-idx-has-its-slot: idxWf(h)
+//@   ensures no-idx-becomes-live: nowLiveWasLive(h, -1)
 //@   ensures heap-ordered: ordInv(h)
+
+// removeKey: the slot that carries key goes, if there is one (the caller keeps "no two slots for one key", so there is at
+// most one); returns the bytes it accounted for. It is how a key gives up its slot before it is stored again: the entry
+// that owned the slot may be gone already (dropped by the storage on its own), so the key is the only handle on it.
+//@ macro slotOfKey(hh, jj) = hh.entries[hh.indices[jj]].key
+//@ func (*indexedHeap).removeKey
+//@   requires heap-wf: wfHeap(h)
+//@   requires every-idx-has-its-slot: idxWf(h)
+//@   requires sum-inv: sumInv(h)
+//@   requires heap-ordered: ordInv(h)
+//@   requires at-most-one-slot-for-the-key: forall(a, 0, h.maxidx, forall(b, 0, h.maxidx, isIdx(a) && isIdx(b) && live(h, a + 0) && live(h, b + 0) && slotOfKey(h, a + 0) == key && slotOfKey(h, b + 0) == key ==> a == b))
+//@   modifies h.entries, elems(h.entries), elems(h.indices), hpSum, hpPre
+//@   atcall (*indexedHeap).removeInternal: found-slot-carries-the-key: h.entries[realIdx].key == old(key) && isIdx(h.entries[realIdx].idx)
+//@   ensures heap-wf: wfHeap(h)
+//@   ensures every-idx-has-its-slot: idxWf(h)
+//@   ensures max-idx-kept: h.maxidx == old(h.maxidx) && len(h.entries) <= old(len(h.entries))
+//@   ensures slot-of-the-key-gone: forall(j, 0, h.maxidx, isIdx(j) && live(h, j + 0) ==> slotOfKey(h, j + 0) != key)
+//@   ensures slot-of-the-key-released: forall(j, 0, h.maxidx, isIdx(j) && old(live(h, j + 0)) && old(slotOfKey(h, j + 0)) == key ==> !live(h, j + 0))
+//@   ensures slots-of-other-keys-kept: forall(j, 0, h.maxidx, isIdx(j) && old(live(h, j + 0)) && old(slotOfKey(h, j + 0)) != key ==> keptIdx(h, j + 0))
+//@   ensures no-idx-becomes-live: nowLiveWasLive(h, -1)
+//@   ensures sum-inv: sumInv(h)
+//@   ensures sum-follows: hpSum == old(hpSum) - result && 0 <= result && result <= old(hpSum) && (len(h.entries) == 0 ==> hpSum == 0)
+//@   ensures heap-ordered: ordInv(h)
+//@   loop 1
+//@     invariant no-slot-with-the-key-so-far: forall(q, 0, rangeindex + 1, h.entries[q].key != key)
 
 // ---- the cache as the handler sees it (ghost view of the manager's store) --------------------------
 // ceEnt[k]: the entry cached under key k (= KeyGenerator(c) + "_" + method), 0 = none. An entry is an
@@ -222,6 +269,11 @@ package cache
 //   decodes to (dec*: uninterpreted, pinned down only by the assumed round trip of MarshalMsg/UnmarshalMsg below), so
 //   "the entry stored under k" and "what get(k) decodes" are the same thing by definition, not by a trusted clause.
 //@ ghost ceEnt map[string]int
+// ceDropped[k]: the back end was seen to hold nothing under k (look-up miss: never stored, or dropped by the back end on its
+// own when its TTL ran out) and k was not stored since. The heap slot of such a key, if it still has one, belongs to no
+// cached entry; it is released when the key is stored again or when it is evicted. Keys deleted by the handler itself
+// (expiry/invalidation branch, eviction) are NOT marked: they must give up their slot at once.
+//@ ghost ceDropped map[string]bool
 //@ fn entCode(e int) string
 //@ fn entPtr(e int) int
 //@ fn decExp(s string) int
@@ -248,6 +300,8 @@ package cache
 //@ smt (assert (= (entExp 0) 0))
 //@ ghost rawEnt map[string]int
 //@ fn rawBody(r int) int
+//@ macro isAlloc(x) = arr(x) == 0 || allocated(arr(x))
+//@ macro hdrValuesExist(it) = forallS(hk, indom(it.headers, hk) ==> isAlloc(it.headers[hk]))
 // item `it` carries exactly entry `en` / carried it in the pre-state
 //@ macro itemIs(it, en) = it.exp == entExp(en) && it.status == entStatus(en) && cid(str(it.ctype)) == entCtype(en) && cid(str(it.cencoding)) == entCenc(en) && len(it.cencoding) == entCencLen(en) && it.heapidx == entHidx(en) &&
 //@ ..   forallS(hk, indom(it.headers, hk) <==> entHdrHas(en, hk)) && forallS(hk, entHdrHas(en, hk) ==> cid(str(it.headers[hk])) == entHdr(en, hk))
@@ -291,6 +345,9 @@ package cache
 //@   requires no-map-to-recycle: z.headers == nil
 //@   modifies fields(z)
 //@   ensures round-trip: isItemCode(old(str(bts))) ==> result1 == nil && codes(z, old(str(bts)))
+//   (the decoded header values are byte arrays that exist: the engine assumes that for every loaded value, but not for the
+//    values a map range yields -- the hit loop needs it to tell them from the array of the literal []byte{'\n'})
+//@   ensures decoded-header-values-exist: forallS(hk, indom(z.headers, hk) ==> isAlloc(z.headers[hk]))
 //@ func (*item).MarshalMsg(z, b) assumed pure allocates
 //@   ensures round-trip: result1 == nil && isItemCode(str(result0)) && codes(z, str(result0))
 
@@ -320,11 +377,11 @@ package cache
 //@   requires coupled: cpl(m)
 //@   requires entry-key: !bodyKey(key)
 //@   requires reliable-storage: reliable(m)
-//@   modifies ceEnt, stHas, memHas, item.headers, item.body, item.ctype, item.cencoding, item.status, item.exp, item.heapidx
+//@   modifies ceEnt, ceDropped, stHas, memHas, item.headers, item.body, item.ctype, item.cencoding, item.status, item.exp, item.heapidx
 //@   atcall @fiber.Storage.Get: own-key: arg1 == old(key)
 //@   atcall @memory.(*Storage).Get: own-key: arg1 == old(key)
 //@   ensures external-back-end-always-returns-item: m.storage != nil ==> result != nil
-//@   trusted ensures ghost-code-forget-on-miss: ceEnt == ite(backHas(m, key), old(ceEnt), old(ceEnt)[key := 0])
+//@   trusted ensures ghost-code-forget-on-miss: ceEnt == ite(backHas(m, key), old(ceEnt), old(ceEnt)[key := 0]) && ceDropped == ite(backHas(m, key), old(ceDropped), old(ceDropped)[key := true])
 //@   ensures still-coupled: cplW(m, ite(backHas(m, key), old(ceEnt), old(ceEnt)[key := 0]), rawEnt)
 //@   ensures found-is-known: backHas(m, key) ==> old(ceEnt)[key] != 0
 //@   ensures absent: result == nil ==> !backHas(m, key)
@@ -332,7 +389,8 @@ package cache
 //@   ensures item-is-entry: m.storage != nil && backHas(m, key) ==> itemIs(result, old(ceEnt)[key])
 //@   ensures item-is-stored-pointer: m.storage == nil && backHas(m, key) ==> result != nil && result == entPtr(old(ceEnt)[key])
 //   ASSUMED (in-memory back end): the item the back end holds is as it was when it was stored
-//@   trusted ensures stored-item-unchanged: m.storage == nil && result != nil ==> itemIs(result, ceEnt[key]) && cid(str(result.body)) == entBody(ceEnt[key]) && len(result.body) == entSize(ceEnt[key])
+//@   trusted ensures stored-item-unchanged: m.storage == nil && result != nil ==> itemIs(result, ceEnt[key]) && cid(str(result.body)) == entBody(ceEnt[key]) && len(result.body) == entSize(ceEnt[key]) && hdrValuesExist(result)
+//@   ensures decoded-header-values-exist: m.storage != nil ==> hdrValuesExist(result)
 
 // getRaw / setRaw: the separately stored body; only used (and only specified) with an external storage.
 //@ func (*manager).getRaw
@@ -353,10 +411,10 @@ package cache
 //@   requires entry-key: !bodyKey(key)
 //@   requires reliable-storage: reliable(m)
 //@   requires has-item: it != nil
-//@   modifies ceEnt, stHas, stVal, memHas, memVal, item.body, item.ctype, item.status, item.exp, item.headers
+//@   modifies ceEnt, ceDropped, stHas, stVal, memHas, memVal, item.body, item.ctype, item.status, item.exp, item.headers
 //@   atcall @fiber.Storage.Set: own-key-and-ttl: arg1 == old(key) && arg3 == old(exp)
 //@   atcall @memory.(*Storage).Set: own-key-and-ttl: arg1 == old(key) && arg3 == old(exp)
-//@   trusted ensures ghost-code-new-entry: ceEnt == old(ceEnt)[key := ceEnt[key]] && ceEnt[key] != 0 && (m.storage != nil ==> entCode(ceEnt[key]) == stVal[m.storage][key]) && (m.storage == nil ==> entPtr(ceEnt[key]) == it && itemWas(it, ceEnt[key]))
+//@   trusted ensures ghost-code-new-entry: ceEnt == old(ceEnt)[key := ceEnt[key]] && ceEnt[key] != 0 && (m.storage != nil ==> entCode(ceEnt[key]) == stVal[m.storage][key]) && (m.storage == nil ==> entPtr(ceEnt[key]) == it && itemWas(it, ceEnt[key])) && ceDropped == old(ceDropped)[key := false]
 //@   ensures others-still-coupled: (m.storage != nil ==> forallS(k, k != key ==> cplXat(m, old(ceEnt), rawEnt, k))) && (m.storage == nil ==> m.memory != nil && forallS(k, k != key ==> cplMat(m, old(ceEnt), k)))
 //@   ensures stored-external: m.storage != nil ==> stHas[m.storage][key] && isItemCode(stVal[m.storage][key]) && codesWas(it, stVal[m.storage][key])
 //@   ensures stored-in-memory: m.storage == nil ==> memHas[m.memory][key] && typeis(memVal[m.memory][key], *item) && unbox(memVal[m.memory][key], *item) == it
@@ -393,6 +451,7 @@ package cache
 //@   ensures entry-gone: ceEnt[dkey] == 0
 //@   ensures body-gone: cfg.Storage != nil ==> rawEnt[dkey + "_body"] == 0
 //@   ensures only-removes: forallS(k, ceEnt[k] == old(ceEnt[k]) || ceEnt[k] == 0) && forallS(k, rawEnt[k] == old(rawEnt[k]) || rawEnt[k] == 0)
+//@   ensures only-own-keys: forallS(k, k != dkey && k != dkey + "_body" ==> ceEnt[k] == old(ceEnt[k]) && rawEnt[k] == old(rawEnt[k]))
 // The handler calls New$3 through the variable deleteKey; the engine resolves such a call by the name
 // of the variable, so the clauses proved for New$3 are repeated here (ASSUMED copy).
 //@ func var deleteKey(dkey) assumed
@@ -403,6 +462,7 @@ package cache
 //@   ensures entry-gone: ceEnt[dkey] == 0
 //@   ensures body-gone: cfg.Storage != nil ==> rawEnt[dkey + "_body"] == 0
 //@   ensures only-removes: forallS(k, ceEnt[k] == old(ceEnt[k]) || ceEnt[k] == 0) && forallS(k, rawEnt[k] == old(rawEnt[k]) || rawEnt[k] == 0)
+//@   ensures only-own-keys: forallS(k, k != dkey && k != dkey + "_body" ==> ceEnt[k] == old(ceEnt[k]) && rawEnt[k] == old(rawEnt[k]))
 
 // ---- request predicates ----------------------------------------------------------------------------
 // ccHas(h, d): the Cache-Control header value h carries directive d. Directives are case-insensitive
@@ -424,13 +484,50 @@ package cache
 //@ func Config.KeyGenerator assumed pure
 //@ func Config.ExpirationGenerator assumed pure
 
-// The visitor that copies the response headers into the new entry (New$4$1): hop-by-hop headers and
-// the two headers kept in dedicated fields are skipped, everything else is copied.
+// ---- the stored response headers (StoreResponseHeaders) ------------------------------------------------------------
+// (*ResponseHeader).VisitAll calls the visitor New$4$1 once for every header LINE of the origin's response, in the order
+// of the lines (ASSUMED contract of VisitAll, contracts/deps/mw_C14.spec: a name that was added several times is
+// visited once per line). The entry keeps ONE map entry per name: the values of a repeated name are kept in it in the
+// order of the visits, separated by line feeds (joinLF / nlCount / nlPiece: contracts/deps/mw_C14.spec). What is CHECKED
+// on the visitor is the step "this line is stored, after the lines stored before, and nothing else changes"; with the
+// assumed contract of VisitAll (every line, once, in order) that is: the stored headers of an entry are ALL header lines
+// of the origin response (except the ignored ones), each value once, in order.
+// (The induction over the visits is not done by the engine: ghost code of a callback has no effect while the callback's
+//  own body is checked, and `preserves` is a one-state invariant. See the report.)
+//@ macro ignored(n) = indom(ignoreHeaders, n)
+// (LEMMA, a consequence of two prelude axioms -- at(b2s(m, o, n), i) == m[o + i] and idx(s, i) == soff(s) + i -- stated in
+//  the form E-matching needs: reading byte i of str(s) names the element idx(s, i), which is the term the axioms of
+//  append are triggered on. Without it the solvers do not find the instance and the string equalities below time out.)
+//@ smt (assert (forall ((m (Array Int (Array Int Int))) (s Slc) (i Int)) (! (=> (and (<= 0 i) (< i (slen s)) (<= 0 (select (select m (sarr s)) (idx s i))) (< (select (select m (sarr s)) (idx s i)) 256)) (= (at (b2s (select m (sarr s)) (soff s) (slen s)) i) (select (select m (sarr s)) (idx s i)))) :pattern ((at (b2s (select m (sarr s)) (soff s) (slen s)) i)))))
+// the entry under construction owns its byte arrays: the header values are pairwise different arrays and none of them
+// is the array of the body, the content type or the encoding
+//@ macro ownArrays(it) = isAlloc(it.body) && isAlloc(it.ctype) && isAlloc(it.cencoding) && forallS(n, indom(it.headers, n) ==> isAlloc(it.headers[n])) &&
+//@ ..   forallS(a, forallS(b, a != b && indom(it.headers, a) && indom(it.headers, b) && arr(it.headers[a]) != 0 ==> arr(it.headers[a]) != arr(it.headers[b]))) &&
+//@ ..   forallS(n, indom(it.headers, n) && arr(it.headers[n]) != 0 ==> arr(it.headers[n]) != arr(it.body) && arr(it.headers[n]) != arr(it.ctype) && arr(it.headers[n]) != arr(it.cencoding))
+//@ macro hk() = old(str(key))
 //@ func New$4$1
-//@   requires e != nil && e.headers != nil
-//@   modifies heap(MD_string_LJuint8), heap(MV_string_LJuint8)
-//@   ensures skips-ignored: old(indom(ignoreHeaders, str(key))) ==> forallS(h, indom(e.headers, h) == old(indom(e.headers, h)))
-//@   ensures copies-other: !old(indom(ignoreHeaders, str(key))) ==> indom(e.headers, str(key)) && str(e.headers[str(key)]) == str(value)
+//   ASSUMED (what VisitAll hands to its visitor): the value slice points into the response header's own buffers, never
+//   into one of the copies this closure made earlier
+//@   assumes visited-value-is-not-a-stored-copy: forallS(n, indom(e.headers, n) ==> arr(e.headers[n]) != arr(value))
+//@   modifies heap(MD_string_LJuint8), heap(MV_string_LJuint8), heap(E_uint8)
+//@   preserves entry-has-header-map: e != nil && e.headers != nil
+//@   preserves ignored-names-never-stored: forallS(n, indom(e.headers, n) ==> !ignored(n))
+//@   preserves entry-owns-its-arrays: ownArrays(e)
+//@   ensures skips-ignored: old(ignored(str(key))) ==> forallS(n, indom(e.headers, n) == old(indom(e.headers, n)) && (indom(e.headers, n) ==> str(e.headers[n]) == old(str(e.headers[n]))))
+//@   ensures first-line-of-a-name-is-stored: !old(ignored(str(key))) && !old(indom(e.headers, str(key))) ==> indom(e.headers, hk()) && str(e.headers[hk()]) == old(str(value))
+//@   ensures further-line-of-a-name-is-stored-after-the-earlier-ones: !old(ignored(str(key))) && old(indom(e.headers, str(key))) ==> indom(e.headers, hk()) && str(e.headers[hk()]) == joinLF(old(str(e.headers[str(key)])), old(str(value)))
+//   (the same read through nlCount/nlPiece, i.e. what bytes.Split gives back on a hit: the value is one more piece, behind the earlier ones)
+//@   ensures stored-line-is-the-last-piece: !old(ignored(str(key))) && !hasByte(old(str(value)), 10) ==> nlPiece(str(e.headers[hk()]), nlCount(str(e.headers[hk()])) - 1) == old(str(value)) &&
+//@ ..   nlCount(str(e.headers[hk()])) == ite(old(indom(e.headers, str(key))), old(nlCount(str(e.headers[str(key)]))) + 1, 1) &&
+//@ ..   (old(indom(e.headers, str(key))) ==> forallI(j, 0 <= j && j < old(nlCount(str(e.headers[str(key)]))) ==> nlPiece(str(e.headers[hk()]), j) == old(nlPiece(str(e.headers[str(key)]), j))))
+//@   ensures lines-of-other-names-kept: forallS(n, n != hk() ==> indom(e.headers, n) == old(indom(e.headers, n)) && (indom(e.headers, n) ==> str(e.headers[n]) == old(str(e.headers[n]))))
+//   (the other bytes of the entry are not touched: see store-origin-* at the call of VisitAll in New$4)
+//@   ensures entry-bytes-kept: str(e.body) == old(str(e.body)) && str(e.ctype) == old(str(e.ctype)) && str(e.cencoding) == old(str(e.cencoding))
+//   (the entry must not share memory with the response, whose buffers fasthttp re-uses for the next request: the value is
+//    copied, and the name is converted by a copying conversion -- strings have no identity in the model, so that is
+//    stated over the calls of the body: utils.UnsafeString, the conversion that aliases its argument, is never called)
+//@   ensures value-is-copied: !old(ignored(str(key))) && arr(e.headers[hk()]) != 0 ==> arr(e.headers[hk()]) != arr(value)
+//@   ensures name-is-copied: !called(@utils.UnsafeString)
 
 // ---- the handler (New$4) ---------------------------------------------------------------------------
 // ckey(): the cache key of this request; cur(): the entry the cache holds for it now;
@@ -438,12 +535,35 @@ package cache
 //@ macro ckey() = last(Config.KeyGenerator) + "_" + last(@fiber.Ctx.Method)
 //@ macro cur() = ceEnt[ckey()]
 //@ macro served() = called(@fasthttp.(*Response).SetBodyRaw)
+//@ macro visited() = called(@fasthttp.(*ResponseHeader).VisitAll)
+// stored header values: multi(s): s holds several lines (the values of a repeated header, one per line); hv(h): the stored
+// value of header h of the current entry (cstr: the content behind a content id -- cid is uninterpreted, cstr makes it injective)
+//@ macro multi(s) = hasByte(s, 10)
+//@ fn cstr(c int) string
+//@ smt (assert (forall ((s Str)) (! (= (cstr (cid s)) s) :pattern ((cid s)))))
+//@ macro hv(h) = cstr(entHdr(cur(), h))
+// none of the repeated headers of the entry in hand had a line on the response when the handler started
+//@ macro cleanBefore() = forallS(g, entHdrHas(cur(), g) && multi(hv(g)) ==> old(hdrCnt[g]) == 0)
 //@ macro invalidated() = called(Config.CacheInvalidator) && last(Config.CacheInvalidator)
-//@ macro cacheUntouched() = !called(@sync.(*RWMutex).Lock) && !called((*manager).get) && !called((*manager).getRaw) && !called((*manager).set) && !called((*manager).setRaw) && !called((*indexedHeap).put) && !called((*indexedHeap).remove) && !called((*indexedHeap).removeFirst)
+//@ macro cacheUntouched() = !called(@sync.(*RWMutex).Lock) && !called((*manager).get) && !called((*manager).getRaw) && !called((*manager).set) && !called((*manager).setRaw) && !called((*indexedHeap).put) && !called((*indexedHeap).remove) && !called((*indexedHeap).removeFirst) && !called((*indexedHeap).removeKey)
 // the heap slot that accounts for entry en
 //@ macro hslot(en) = heap.entries[heap.indices[entHidx(en)]]
 // every cached entry owns a live heap slot that carries its key and the size of its body
 //@ macro tracked() = forallS(k, ceEnt[k] != 0 ==> isIdx(entHidx(ceEnt[k])) && holds(heap, entHidx(ceEnt[k])) && hslot(ceEnt[k]).key == k && (cfg.Storage == nil && entSize(ceEnt[k]) < 4294967296 * 4294967296 ==> hslot(ceEnt[k]).bytes == entSize(ceEnt[k])))
+// the same without key x (between giving up the old slot of a key and storing the key again)
+//@ macro trackedBut(x) = forallS(k, k != x && ceEnt[k] != 0 ==> isIdx(entHidx(ceEnt[k])) && holds(heap, entHidx(ceEnt[k])) && hslot(ceEnt[k]).key == k && (cfg.Storage == nil && entSize(ceEnt[k]) < 4294967296 * 4294967296 ==> hslot(ceEnt[k]).bytes == entSize(ceEnt[k])))
+// The converse: the heap slots belong to the cached entries. slotKey(j): the key of the slot in use under idx j.
+//   ownedSlots     a slot whose key is cached is the slot of THAT entry; the key of any other slot is one the back end was
+//                  seen to have dropped on its own (ceDropped: TTL) -- such a slot stays, counted and never served, until the
+//                  key is stored again or the slot is evicted. An entry the handler itself deletes leaves no slot behind.
+//   oneSlotPerKey  no two slots carry the same key
+//   noSlotFor(x)   no slot carries key x
+// With tracked(): every cached key has exactly one slot, every slot belongs to at most one cached key, so storedBytes
+// (== the sum over the slots) is never less than the bytes of the cached entries and no entry is counted twice.
+//@ macro slotKey(jj) = heap.entries[heap.indices[jj]].key
+//@ macro ownedSlots() = forall(j, 0, heap.maxidx, isIdx(j) && live(heap, j + 0) ==> ite(ceEnt[slotKey(j + 0)] != 0, entHidx(ceEnt[slotKey(j + 0)]) == j, ceDropped[slotKey(j + 0)]))
+//@ macro oneSlotPerKey() = forall(a, 0, heap.maxidx, forall(b, 0, heap.maxidx, isIdx(a) && isIdx(b) && live(heap, a + 0) && live(heap, b + 0) && slotKey(a + 0) == slotKey(b + 0) ==> a == b))
+//@ macro noSlotFor(x) = forall(j, 0, heap.maxidx, isIdx(j) && live(heap, j + 0) ==> slotKey(j + 0) != x)
 //@ ghost lkNone int
 
 // manager.get must run inside the critical section. That is not stated as a clause `held(mux)` at the call
@@ -461,9 +581,12 @@ package cache
 //    no body keys and "<entry key>_body" is one -- false only for a configured method named "body" or ending in "_body")
 //@   requires reliable-storage: cfg.Storage != nil ==> stReliable(cfg.Storage)
 //@   requires key-spaces-apart: forallS(g, !bodyKey(g + "_" + reqMethod(c, epoch)) && bodyKey(g + "_" + reqMethod(c, epoch) + "_body"))
+//   (bodyKey is uninterpreted; its reading is "ends in _body", so a key with that suffix appended is one -- needed for the
+//    keys of OTHER requests, whose entries this request evicts)
+//@   requires body-keys-end-in-body: forallS(k, bodyKey(k + "_body"))
 //
 //   -- accounting and data-structure invariants of the state guarded by mux
-//@   lock mux protects ceEnt, rawEnt, stHas, stVal, memHas, memVal, hpSum, hpPre, C_uint, H_cache_indexedHeap_entries, H_cache_indexedHeap_indices, H_cache_indexedHeap_maxidx, H_cache_heapEntry_key, H_cache_heapEntry_exp, H_cache_heapEntry_bytes, H_cache_heapEntry_idx, E_int inv heap-wf: wfHeap(heap)
+//@   lock mux protects ceEnt, ceDropped, rawEnt, stHas, stVal, memHas, memVal, hpSum, hpPre, C_uint, H_cache_indexedHeap_entries, H_cache_indexedHeap_indices, H_cache_indexedHeap_maxidx, H_cache_heapEntry_key, H_cache_heapEntry_exp, H_cache_heapEntry_bytes, H_cache_heapEntry_idx, E_int inv heap-wf: wfHeap(heap)
 //   (hpSum IS the sum of the bytes of the live heap entries: sumInv, see the heap section; "hpSum >= 0" and "empty heap has
 //    sum 0" below are consequences of it, spelled out because the eviction loop uses them)
 //@   lock mux protects lkNone inv heap-sum-is-sum-of-entry-bytes: sumInv(heap)
@@ -471,6 +594,11 @@ package cache
 //@   lock mux protects lkNone inv stored-bytes-is-heap-sum: storedBytes == hpSum && hpSum >= 0 && (len(heap.entries) == 0 ==> hpSum == 0)
 //@   lock mux protects lkNone inv stored-bytes-within-limit: cfg.MaxBytes > 0 ==> storedBytes <= cfg.MaxBytes
 //@   lock mux protects lkNone inv every-entry-tracked-by-heap: cfg.MaxBytes > 0 ==> tracked()
+//   (accounting, the other direction: every heap slot belongs to at most one cached key, no key has two slots)
+//@   lock mux protects lkNone inv every-idx-has-its-slot: idxWf(heap)
+//@   lock mux protects lkNone inv every-heap-slot-belongs-to-the-cached-entry-of-its-key: cfg.MaxBytes > 0 ==> ownedSlots()
+//@   lock mux protects lkNone inv no-two-heap-slots-for-one-key: cfg.MaxBytes > 0 ==> oneSlotPerKey()
+//@   lock mux protects lkNone inv cached-keys-are-entry-keys-and-not-marked-dropped: forallS(k, ceEnt[k] != 0 ==> !ceDropped[k] && !bodyKey(k))
 //   (the view ceEnt/rawEnt is what the back end holds: cpl, see the manager section)
 //@   lock mux protects lkNone inv view-is-back-end-content: cpl(manager)
 //   (the configuration does not change after New; stated here because &cfg is handed to ExpirationGenerator,
@@ -500,14 +628,37 @@ package cache
 //   -- hit: the response carries exactly the entry
 //@   ensures hit-status-and-type: served() ==> outStatusSet && outStatus == entStatus(cur()) && outCtypeSet && outCtype == entCtype(cur())
 //@   ensures hit-encoding: served() && entCencLen(cur()) > 0 && !entHdrHas(cur(), "Content-Encoding") ==> outHdrSet["Content-Encoding"] && outHdr["Content-Encoding"] == entCenc(cur())
-//@   ensures hit-stored-headers: served() ==> forallS(h, entHdrHas(cur(), h) ==> outHdrSet[h] && outHdr[h] == entHdr(cur(), h))
+//   (stored headers: hv(h) is the stored value of name h. A value without line feed is ONE line and is written with
+//    SetBytesV (ghost outHdr, mw_C14.spec); the values of a repeated name are kept in one entry, one per line: the hit removes
+//    the lines of that name and adds exactly the stored ones, in the stored order (list model hdrCnt/hdrVal of the
+//    response header, mw_C17.spec; nlCount/nlPiece: the pieces between the line feeds). fasthttp's Del moves the LAST line
+//    of the whole header into the place of a removed one, so the order of the lines added before is only kept when Del
+//    finds nothing to remove: when none of the repeated stored names has a line on the response before the hit (earlier
+//    middleware). The number of lines is exact in any case.)
+//@   ensures hit-stored-headers: served() ==> forallS(h, entHdrHas(cur(), h) && !multi(hv(h)) ==> outHdrSet[h] && outHdr[h] == entHdr(cur(), h))
+//@   ensures hit-repeated-header-one-line-per-stored-value: served() ==> forallS(h, entHdrHas(cur(), h) && multi(hv(h)) ==> hdrCnt[h] == nlCount(hv(h)))
+//@   ensures hit-repeated-header-adds-exactly-the-stored-lines-in-order: served() && forallS(g, entHdrHas(cur(), g) && multi(hv(g)) ==> old(hdrCnt[g]) == 0) ==>
+//@ ..   forallS(h, entHdrHas(cur(), h) && multi(hv(h)) ==> forallI(j, 0 <= j && j < nlCount(hv(h)) ==> hdrVal[h][j] == nlPiece(hv(h), j)))
 //@   atcall @strconv.FormatUint: max-age-is-time-to-expiry: i == entExp(cur()) - ts && entExp(cur()) > ts
 //@   atcall @fiber.Ctx.Set: hit-marked-only-when-served: val == "hit" ==> served()
+//   loop 1: over the stored headers; loop 2: over the lines of one repeated header
 //@   loop 1
 //@     invariant still-locked: held(mux) && served() && !called(@fiber.Ctx.Next)
-//@     invariant entry-in-hand: cur() != 0 && itemIs(e, cur())
-//@     invariant visited-headers-written: forallS(h, seen(h) ==> outHdrSet[h] && outHdr[h] == entHdr(cur(), h))
+//@     invariant entry-in-hand: cur() != 0 && itemIs(e, cur()) && hdrValuesExist(e)
+//@     invariant visited-headers-written: forallS(h, seen(h) && !multi(hv(h)) ==> outHdrSet[h] && outHdr[h] == entHdr(cur(), h))
+//@     invariant visited-repeated-headers-line-count: forallS(h, seen(h) && multi(hv(h)) ==> hdrCnt[h] == nlCount(hv(h)))
+//@     invariant visited-repeated-headers-lines-in-order: cleanBefore() ==> forallS(h, seen(h) && multi(hv(h)) ==> forallI(j, 0 <= j && j < nlCount(hv(h)) ==> hdrVal[h][j] == nlPiece(hv(h), j)))
+//@     invariant unvisited-names-untouched: forallS(g, !seen(g) ==> hdrCnt[g] == old(hdrCnt[g]))
 //@     invariant encoding-kept: entCencLen(cur()) > 0 && !entHdrHas(cur(), "Content-Encoding") ==> outHdrSet["Content-Encoding"] && outHdr["Content-Encoding"] == entCenc(cur())
+//@   loop 2
+//@     invariant still-locked: held(mux) && served() && !called(@fiber.Ctx.Next)
+//@     invariant entry-in-hand: cur() != 0 && itemIs(e, cur()) && hdrValuesExist(e)
+//@     invariant in-a-repeated-header: seen(k) && entHdrHas(cur(), k) && str(v) == hv(k) && multi(hv(k))
+//@     invariant lines-of-the-stored-value: len(last(@bytes.Split)) == nlCount(hv(k)) && forall(j, 0, len(last(@bytes.Split)), str(last(@bytes.Split)[j]) == nlPiece(hv(k), j))
+//@     invariant lines-added-so-far: 0 <= rangeindex + 1 && rangeindex + 1 <= len(last(@bytes.Split)) && hdrCnt[k] == rangeindex + 1 && forallI(j, 0 <= j && j < rangeindex + 1 ==> hdrVal[k][j] == nlPiece(hv(k), j))
+//@     invariant visited-repeated-headers-line-count: forallS(h, seen(h) && h != k && multi(hv(h)) ==> hdrCnt[h] == nlCount(hv(h)))
+//@     invariant visited-repeated-headers-lines-in-order: cleanBefore() ==> forallS(h, seen(h) && h != k && multi(hv(h)) ==> forallI(j, 0 <= j && j < nlCount(hv(h)) ==> hdrVal[h][j] == nlPiece(hv(h), j)))
+//@     invariant unvisited-names-untouched: forallS(g, !seen(g) ==> hdrCnt[g] == old(hdrCnt[g]))
 //
 //   -- expired or invalidated entry: it leaves the cache and exactly its heap slot is released
 //   (deleteKey has already run here, so the entry is identified through the heap: the idx handed to remove must be
@@ -520,8 +671,15 @@ package cache
 //@   atcall (*manager).set: store-only-cacheable-status: cacheableStatusCodes[it.status]
 //@   atcall (*manager).set: store-not-when-skipped: !(called(Config.Next) && last(Config.Next))
 //@   atcall (*manager).set: store-origin-status: it.status == last(@fasthttp.(*Response).StatusCode)
-//@   atcall (*manager).set: store-origin-type-and-encoding: cid(str(it.ctype)) == cid(str(last(@fasthttp.(*ResponseHeader).ContentType))) && cid(str(it.cencoding)) == cid(str(last(@fasthttp.(*ResponseHeader).Peek)))
-//@   atcall (*manager).set: store-origin-body: cfg.Storage == nil ==> cid(str(it.body)) == cid(str(last(@fasthttp.(*Response).Body)))
+//   (content of the copies. With StoreResponseHeaders the header visitor runs between the copies and the store; it appends to
+//    byte slices, and the engine transports only one-state `preserves` clauses over a callback -- after VisitAll every byte
+//    array of the handler is unknown. So the content clauses are proved at the call of VisitAll, i.e. after the copies were
+//    made, and the visitor is proved not to touch these bytes (New$4$1: entry-bytes-kept, checked on its body for one
+//    visit); without StoreResponseHeaders they are proved at the store itself, as before.)
+//@   atcall @fasthttp.(*ResponseHeader).VisitAll: store-origin-type-and-encoding: cid(str(e.ctype)) == cid(str(last(@fasthttp.(*ResponseHeader).ContentType))) && cid(str(e.cencoding)) == cid(str(last(@fasthttp.(*ResponseHeader).Peek)))
+//@   atcall @fasthttp.(*ResponseHeader).VisitAll: store-origin-body: cid(str(e.body)) == cid(str(last(@fasthttp.(*Response).Body)))
+//@   atcall (*manager).set: store-origin-type-and-encoding: !visited() ==> cid(str(it.ctype)) == cid(str(last(@fasthttp.(*ResponseHeader).ContentType))) && cid(str(it.cencoding)) == cid(str(last(@fasthttp.(*ResponseHeader).Peek)))
+//@   atcall (*manager).set: store-origin-body: !visited() && cfg.Storage == nil ==> cid(str(it.body)) == cid(str(last(@fasthttp.(*Response).Body)))
 //   (the engine does not bound slice lengths by MaxInt, hence the guard; stated where the copy was just made,
 //    the two clauses after it follow from it)
 //@   atcall @fasthttp.(*ResponseHeader).ContentType: copied-body-has-accounted-size: len(e.body) < 4294967296 * 4294967296 ==> len(e.body) == bodySize
@@ -532,7 +690,7 @@ package cache
 //@   atcall (*manager).set: store-ttl: exp == ite(cfg.ExpirationGenerator != nil, last(Config.ExpirationGenerator), cfg.Expiration)
 //@   atcall (*manager).set: store-fits: cfg.MaxBytes > 0 ==> bodySize <= cfg.MaxBytes && holds(heap, it.heapidx) && heap.entries[heap.indices[it.heapidx]].key == key && heap.entries[heap.indices[it.heapidx]].bytes == bodySize
 //@   atcall (*manager).setRaw: raw-under-lock-own-key: held(mux) && key == ckey() + "_body"
-//@   atcall (*manager).setRaw: raw-is-origin-body: cid(str(raw)) == cid(str(last(@fasthttp.(*Response).Body)))
+//@   atcall (*manager).setRaw: raw-is-origin-body: !visited() ==> cid(str(raw)) == cid(str(last(@fasthttp.(*Response).Body)))
 //@   atcall (*manager).setRaw: raw-copies-response-bytes: len(raw) > 0 ==> arr(raw) != arr(last(@fasthttp.(*Response).Body))
 //@   atcall (*manager).setRaw: raw-size-is-accounted-size: len(raw) < 4294967296 * 4294967296 ==> len(raw) == bodySize
 //
@@ -541,17 +699,31 @@ package cache
 //@   atcall (*manager).getRaw: lookup-under-lock-own-key: held(mux) && key == ckey() + "_body"
 //@   atcall var deleteKey: delete-under-lock: held(mux)
 //@   atcall (*indexedHeap).put: heap-under-lock: held(mux)
+//@   atcall (*indexedHeap).removeKey: heap-under-lock-own-key: held(mux) && key == ckey()
 //@   atcall (*indexedHeap).removeFirst: heap-under-lock: held(mux)
 //   (eviction order: the entry that goes is one with the nearest expiry of all entries the heap holds)
 //@   atcall (*indexedHeap).removeFirst: evicts-nearest-expiry: forall(k, 0, len(heap.entries), isPos(k) ==> heap.entries[0].exp <= heap.entries[k + 0].exp)
 //@   atcall @fiber.Ctx.Next: origin-outside-lock: !held(mux)
-//@   loop 2
+//@   loop 3
 //@     invariant evicting-under-lock: held(mux) && cfg.MaxBytes > 0 && bodySize <= cfg.MaxBytes && called(@fiber.Ctx.Next) && !served()
 //@     invariant heap-wf: wfHeap(heap)
 //@     invariant heap-sum-is-sum-of-entry-bytes: sumInv(heap)
 //@     invariant heap-ordered-by-expiry: ordInv(heap)
 //@     invariant stored-bytes-is-heap-sum: storedBytes == hpSum && hpSum >= 0 && (len(heap.entries) == 0 ==> hpSum == 0) && storedBytes <= cfg.MaxBytes
-//@     invariant every-entry-tracked-by-heap: tracked()
+//     (the key of this request has given up its slot and gets a new one after the loop: tracked() for every other key)
+//@     invariant every-other-entry-tracked-by-heap: trackedBut(ckey())
+//@     invariant every-idx-has-its-slot: idxWf(heap)
+//@     invariant every-heap-slot-belongs-to-the-cached-entry-of-its-key: ownedSlots()
+//@     invariant no-two-heap-slots-for-one-key: oneSlotPerKey()
+//@     invariant cached-keys-are-entry-keys-and-not-marked-dropped: forallS(k, ceEnt[k] != 0 ==> !ceDropped[k] && !bodyKey(k))
+//     (before a key is stored again its old heap slot is gone -- removeKey: left behind it would be counted twice and its
+//      eviction would delete the entry stored below. Stated as three cases of what the cache holds under the key at that
+//      moment, so that a failure says which one is not handled: a cached entry (no-cache request on a live entry, a
+//      concurrent miss that stored the key first), nothing (the back end dropped the expired entry on its own), an entry
+//      with the expiry second 0, which the handler takes for "no entry")
+//@     invariant replaced-entry-gave-up-its-heap-slot: cur() != 0 && entExp(cur()) != 0 ==> noSlotFor(ckey())
+//@     invariant dropped-entry-left-no-heap-slot: cur() == 0 ==> noSlotFor(ckey())
+//@     invariant entry-with-zero-expiry-left-no-heap-slot: cur() != 0 && entExp(cur()) == 0 ==> noSlotFor(ckey())
 //@     invariant view-is-back-end-content: cpl(manager) && manager != nil && manager.storage == cfg.Storage && (cfg.Storage != nil ==> stReliable(cfg.Storage))
 //@     decreases len(heap.entries)
 
